@@ -1,3 +1,7 @@
+/-
+  Bnum.Audit.C08 — axioms used by the C08 property theorems (expected: only `propext`,
+  `Classical.choice`, `Quot.sound`).
+-/
 import Bnum.Props.C08
 #print axioms Bnum.C08.u_overflowing_pow
 #print axioms Bnum.C08.u_overflowing_pow_int
@@ -18,6 +22,8 @@ import Bnum.Props.C08
 #print axioms Bnum.C08.i_strict_pow
 #print axioms Bnum.C08.i_pow
 #print axioms Bnum.C08.log_is_greatest
+#print axioms Bnum.C08.udivspec
+#print axioms Bnum.C08.one_le_of_ten
 #print axioms Bnum.C08.iilog_spec
 #print axioms Bnum.C08.u_checked_ilog2
 #print axioms Bnum.C08.u_checked_ilog
